@@ -455,11 +455,22 @@ func registerStrings(e *Engine) {
 		c.St.Ghost[k] = StrConcat(cur, StrFromCode(BVToInt(BVResize(c.argTerm(1), 64, false))))
 		return c.Return(Iface{})
 	}
+	e.Intr["unicode/utf8.ValidString"] = func(c *Call) []*State {
+		if !ByteMode {
+			return c.Return(True) // ASCII alphabet
+		}
+		return c.Return(StrInRe(c.argTerm(0), utf8ValidRe()))
+	}
 	e.Intr["(*strings.Builder).WriteRune"] = func(c *Call) []*State {
 		k := "sb:" + ptrKey(c.Args[0].(Ptr))
 		cur, _ := c.St.Ghost[k].(*Term)
 		if cur == nil {
 			cur = StrC("")
+		}
+		if ByteMode {
+			enc := utf8Encode(c.argTerm(1))
+			c.St.Ghost[k] = StrConcat(cur, enc)
+			return c.Return(Tuple{StrLen(enc, 64), Iface{}})
 		}
 		c.St.Ghost[k] = StrConcat(cur, StrFromCode(BVToInt(BVResize(c.argTerm(1), 64, true))))
 		return c.Return(Tuple{BVC(1, 64), Iface{}})
